@@ -69,8 +69,10 @@ def gen_case(rng, params, idx):
         if bases:
             try:   # C3 feasibility, checked on plain stand-ins
                 shadow = {}
+                OB = type("OB", (), {})      # stands for OvldBase, the common base of every root written `class K(OvldBase)`
                 for k, cc in enumerate(classes):
-                    shadow[k] = type(cc["name"], tuple(shadow[b] for b in cc["bases"]) or (object,), {})
+                    root = (OB,) if cc["root"] == "base" else (object,)
+                    shadow[k] = type(cc["name"], tuple(shadow[b] for b in cc["bases"]) or root, {})
                 type(name, tuple(shadow[b] for b in bases), {})
             except TypeError:
                 bases = bases[:1]
